@@ -1,8 +1,8 @@
 (* qqueue.c, qstack.c and qgrow.c as executable models: thin wrappers over the qlist model, written call by call.
-   qqueue.c and qstack.c have the same text except that push/pushstr/pushint call addlast (queue) or addfirst (stack);
-   pop*/get* take the FIRST element in both.  Executable definitions only. *)
+   qqueue.c and qstack.c have the same text except for the end of the list that push/pushstr/pushint address.  Executable definitions only. *)
 From Coq Require Import NArith ZArith List Bool.
 From QV.Base Require Import Res.
+From QV.Gen Require Import SeqWrap.
 From QV.Seq Require Import ListModel.
 Import ListNotations.
 Import QL.
@@ -11,7 +11,18 @@ Local Open Scope Z_scope.
 Module QW.
 
 Inductive kind := Queue | Stack.
-Definition push_index (k : kind) : Z := match k with Queue => -1 | Stack => 0 end.   (* addlast = addat -1, addfirst = addat 0 *)
+(* which end of the list a wrapper function addresses (addfirst/getfirst/popfirst = index 0, addlast/getlast/poplast = -1):
+   read from the source text by tools/gen_seqwrap.py on every run (coq/Gen/SeqWrap.v) *)
+Inductive fn := FPush | FPushStr | FPushInt | FPop | FPopStr | FPopInt | FGet | FGetStr | FGetInt.
+Definition end_of (k : kind) (f : fn) : Z :=
+  match k, f with
+  | Queue, FPush => queue_push_index | Queue, FPushStr => queue_pushstr_index | Queue, FPushInt => queue_pushint_index
+  | Queue, FPop => queue_pop_index | Queue, FPopStr => queue_popstr_index | Queue, FPopInt => queue_popint_index
+  | Queue, FGet => queue_get_index | Queue, FGetStr => queue_getstr_index | Queue, FGetInt => queue_getint_index
+  | Stack, FPush => stack_push_index | Stack, FPushStr => stack_pushstr_index | Stack, FPushInt => stack_pushint_index
+  | Stack, FPop => stack_pop_index | Stack, FPopStr => stack_popstr_index | Stack, FPopInt => stack_popint_index
+  | Stack, FGet => stack_get_index | Stack, FGetStr => stack_getstr_index | Stack, FGetInt => stack_getint_index
+  end.
 
 (* strlen: bstr before the first NUL of the caller's buffer (the harness appends the terminator) *)
 Fixpoint cstrlen_prefix (b : bstr) : bstr :=
@@ -45,17 +56,17 @@ Definition int_obs (r : bstr + err) : res obs :=
 
 Definition wstep (k : kind) (q : qlist) (o : wop) : res (qlist * obs) :=
   match o with
-  | WPush d => bind (addat q (push_index k) d) (fun r => Ok (fst r, ob_err (snd r)))
+  | WPush d => bind (addat q (end_of k FPush) d) (fun r => Ok (fst r, ob_err (snd r)))
   | WPushStr None => Ok (q, OFail EINVAL)
-  | WPushStr (Some s) => bind (addat q (push_index k) (Some (cstrlen_prefix s ++ [0%N]))) (fun r => Ok (fst r, ob_err (snd r)))
-  | WPushInt z => bind (addat q (push_index k) (Some (int_bytes z))) (fun r => Ok (fst r, ob_err (snd r)))
-  | WPop => bind (get_at q 0 true) (fun r => Ok (fst r, ob_data (snd r)))
-  | WPopStr => bind (get_at q 0 true) (fun r => Ok (fst r, str_obs (snd r)))
-  | WPopInt => bind (get_at q 0 true) (fun r => bind (int_obs (snd r)) (fun ob => Ok (fst r, ob)))
+  | WPushStr (Some s) => bind (addat q (end_of k FPushStr) (Some (cstrlen_prefix s ++ [0%N]))) (fun r => Ok (fst r, ob_err (snd r)))
+  | WPushInt z => bind (addat q (end_of k FPushInt) (Some (int_bytes z))) (fun r => Ok (fst r, ob_err (snd r)))
+  | WPop => bind (get_at q (end_of k FPop) true) (fun r => Ok (fst r, ob_data (snd r)))
+  | WPopStr => bind (get_at q (end_of k FPopStr) true) (fun r => Ok (fst r, str_obs (snd r)))
+  | WPopInt => bind (get_at q (end_of k FPopInt) true) (fun r => bind (int_obs (snd r)) (fun ob => Ok (fst r, ob)))
   | WPopAt i => bind (get_at q i true) (fun r => Ok (fst r, ob_data (snd r)))
-  | WGet _ => bind (get_at q 0 false) (fun r => Ok (fst r, ob_data (snd r)))
-  | WGetStr => bind (get_at q 0 false) (fun r => Ok (fst r, str_obs (snd r)))
-  | WGetInt => bind (get_at q 0 false) (fun r => bind (int_obs (snd r)) (fun ob => Ok (fst r, ob)))
+  | WGet _ => bind (get_at q (end_of k FGet) false) (fun r => Ok (fst r, ob_data (snd r)))
+  | WGetStr => bind (get_at q (end_of k FGetStr) false) (fun r => Ok (fst r, str_obs (snd r)))
+  | WGetInt => bind (get_at q (end_of k FGetInt) false) (fun r => bind (int_obs (snd r)) (fun ob => Ok (fst r, ob)))
   | WGetAt i _ => bind (get_at q i false) (fun r => Ok (fst r, ob_data (snd r)))
   | WSize => Ok (q, ONum (num q))
   | WClear => Ok (clear q, OOk)
@@ -73,9 +84,9 @@ Inductive gop :=
 | GSize | GDataSize | GToArray | GToString | GClear.
 Definition gstep (q : qlist) (o : gop) : res (qlist * obs) :=
   match o with
-  | GAdd d => bind (addat q (-1) d) (fun r => Ok (fst r, ob_err (snd r)))
+  | GAdd d => bind (addat q grow_add_index d) (fun r => Ok (fst r, ob_err (snd r)))
   | GAddStr None => Crash
-  | GAddStr (Some s) => bind (addat q (-1) (Some (cstrlen_prefix s))) (fun r => Ok (fst r, ob_err (snd r)))
+  | GAddStr (Some s) => bind (addat q grow_addstr_index (Some (cstrlen_prefix s))) (fun r => Ok (fst r, ob_err (snd r)))
   | GSize => Ok (q, ONum (num q))
   | GDataSize => Ok (q, ONum (datasum q))
   | GToArray => bind (toarray q) (fun r => Ok (q, match r with inl (b, sz) => OArr b sz | inr e => OFailSz e 0 end))
